@@ -2,7 +2,7 @@ import copy
 from typing import Dict, Optional
 from valida.conditions import ConditionLike
 from valida.casting import CAST_DTYPE_LOOKUP, CAST_LOOKUP
-from valida.data import Data, set_datum
+from valida.data import Data
 from valida.datapath import DataPath
 from valida.errors import MalformedRuleSpec
 
@@ -118,11 +118,15 @@ class Rule:
                         if isinstance(datum, k):
                             try:
                                 datum = v(datum)
-                                break
                             except (TypeError, ValueError):
-                                pass
-                    datum_path = DataPath(*datum_path)
-                    set_datum(data_copy, datum_path, datum)
+                                continue
+                            if datum_path:
+                                # `datum_path` holds the actual keys/indices of the node
+                                parent = data_copy
+                                for key in datum_path[:-1]:
+                                    parent = parent[key]
+                                parent[datum_path[-1]] = datum
+                            break
 
         return RuleTest(self, data_copy)
 
